@@ -140,9 +140,9 @@ def finish(ctx, level="other", extra_cov=None, trusted=None, checker_cmd=None):
     evid = EVID
     if os.path.realpath(ctx.repo) != "/repo":
         # runs on scratch copies (controls, mutants) must not overwrite the evidence of the real tree
-        evid = os.path.join(V, ".cache", "scratch-evidence", "%d" % os.getpid())
+        evid = os.environ.get("VERIF_SCRATCH_EVID") or os.path.join(V, ".cache", "scratch-evidence", "%d" % os.getpid())
         try:  # keep the scratch evidence of the last 40 runs only
-            base = os.path.dirname(evid)
+            base = os.path.join(V, ".cache", "scratch-evidence")
             old = sorted((d for d in os.listdir(base)), key=lambda d: os.path.getmtime(os.path.join(base, d)))[:-40]
             import shutil
             for d in old:
